@@ -7,11 +7,12 @@ open MiniJson Koreo.Cache
 structure DSpec where
   id : Nat
   fail : Bool
+  deep : Bool     -- nested too deeply for `copy.deepcopy`: the guarded preparation ends in a PermFail
   deriving Repr
 
 /-- the harness's preparer: fails when told so, else Ok; the result names what it was built from -/
 def dprep : Nat → String → DSpec → PrepResult (Nat × String × Nat) :=
-  fun kind name spec => if spec.fail then .failed (kind, name, spec.id) else .ok (kind, name, spec.id)
+  fun kind name spec => if spec.fail || spec.deep then .failed (kind, name, spec.id) else .ok (kind, name, spec.id)
 
 def optStr (j : J) (k : String) : Option String := (j.getD k).str?
 
@@ -40,7 +41,7 @@ def toOp (j : J) : Except String (Op DSpec) := do
   match ← j.getStr "op" with
   | "offer" =>
     let spec := j.getD "spec"
-    pure (offerOf (← getNat j "kind") (toMeta j) ⟨← getNat spec "id", ← spec.getBool "fail"⟩ (optNat j "sys")
+    pure (offerOf (← getNat j "kind") (toMeta j) ⟨← getNat spec "id", ← spec.getBool "fail", decide ((optNat spec "deep").getD 0 > 0)⟩ (optNat j "sys")
       ((j.getD "cycle").bool?.getD false))
   | "delete" => pure (.delete (← toKey j) (optStr j "version"))
   | "deleteMeta" => pure (deleteMetaOf (← getNat j "kind") (toMeta j))
@@ -53,7 +54,7 @@ def ofResult : PrepResult (Nat × String × Nat) → J
   | .failed (k, n, i) => .obj [("c", .str "failed"), ("kind", .num k), ("name", .str n), ("id", .num i)]
 
 def ofEntry (e : Entry DSpec (Nat × String × Nat)) : J :=
-  .obj [("spec", .obj [("id", .num e.spec.id), ("fail", .bool e.spec.fail)]),
+  .obj [("spec", .obj [("id", .num e.spec.id), ("fail", .bool e.spec.fail), ("deep", .bool e.spec.deep)]),
         ("resource", ofResult e.resource), ("serial", .num e.serial), ("version", .str e.version),
         ("sys", match e.sys with | some n => .num n | none => .null)]
 
